@@ -1,7 +1,7 @@
 """C11 - all Finders give the same answer for the same data"""
-from ..rules import exc, search, config, forward, pathops, mutation
+from ..rules import exc, search, config, forward, pathops, mutation, data
 
-DECIDES = ("non-conforming files never break or change a search: nothing escapes the scan loop (R-EXC), a found path is dropped only for the named reasons and yielded behind the falsy / type-mismatch skips (R-SKIPS), a foreign path is never typed (R-REFORMAT); local and server are the same tables up to the root (R-ROOT / R-IDEM) and every FindInPaths threads its own configuration (R-FWD); sibling find implementations agree on unfolding (R-UNFOLDALL); FindInAll dispatches per Finder instance (R-GROUPFINDER). Also: one sort and one groupby decide '>' in every finder (R-SORT); routing by type alone (R-FINDERROUTE).")
+DECIDES = ("non-conforming files never break or change a search: nothing escapes the scan loop (R-EXC), a found path is dropped only for the named reasons and yielded behind the falsy / type-mismatch skips (R-SKIPS), a foreign path is never typed (R-REFORMAT); local and server are the same tables up to the root (R-ROOT / R-IDEM) and every FindInPaths threads its own configuration (R-FWD); sibling find implementations agree on unfolding (R-UNFOLDALL); FindInAll dispatches per Finder instance (R-GROUPFINDER). Also: one sort and one groupby decide '>' in every finder (R-SORT); routing by type alone (R-FINDERROUTE). The data sidecar of an entity is a hidden sibling of its path (R-SIDECAR), so a file-system search never meets it.")
 DOES_NOT_DECIDE = 'equality of result sets across finders'
 
 
@@ -9,11 +9,13 @@ def rules(ctx, tier):
     return [
         lambda: exc.run(ctx, 'FindInPaths.scan'),
         lambda: search.rule_skips(ctx),
+        lambda: data.rule_sidecar(ctx),
         lambda: search.rule_dedup(ctx),
         lambda: search.rule_unfoldall(ctx),
         lambda: config.rule_root_idem(ctx),
         lambda: forward.rule_fwd_config(ctx),
         lambda: pathops.rule_reformat(ctx),
+        lambda: pathops.rule_pathfirst(ctx),
         lambda: search.rule_groupfinder(ctx),
         lambda: search.rule_sort(ctx),
         lambda: search.rule_finderroute(ctx),
